@@ -10,8 +10,44 @@ use tokio::sync::mpsc;
 
 pub(crate) struct GrpcServer {
     pub addr: SocketAddr,
+    abort: Arc<std::sync::atomic::AtomicBool>,
     stop: tokio::sync::watch::Sender<bool>,
     thread: Option<std::thread::JoinHandle<()>>,
+}
+
+/// The accepted socket; when the server is being stopped it is closed by reset (SO_LINGER 0) so that
+/// neither side is left in TIME_WAIT (thousands of collectors per run would exhaust the port range).
+struct Io {
+    s: tokio::net::TcpStream,
+    abort: Arc<std::sync::atomic::AtomicBool>,
+}
+
+impl Drop for Io {
+    fn drop(&mut self) {
+        if self.abort.load(std::sync::atomic::Ordering::SeqCst) {
+            // (deprecated because a non-zero linger blocks the thread on drop; zero does not)
+            #[allow(deprecated)]
+            let _ = self.s.set_linger(Some(Duration::ZERO));
+        }
+    }
+}
+
+impl tokio::io::AsyncRead for Io {
+    fn poll_read(mut self: std::pin::Pin<&mut Self>, cx: &mut std::task::Context<'_>, buf: &mut tokio::io::ReadBuf<'_>) -> std::task::Poll<std::io::Result<()>> {
+        std::pin::Pin::new(&mut self.s).poll_read(cx, buf)
+    }
+}
+
+impl tokio::io::AsyncWrite for Io {
+    fn poll_write(mut self: std::pin::Pin<&mut Self>, cx: &mut std::task::Context<'_>, buf: &[u8]) -> std::task::Poll<std::io::Result<usize>> {
+        std::pin::Pin::new(&mut self.s).poll_write(cx, buf)
+    }
+    fn poll_flush(mut self: std::pin::Pin<&mut Self>, cx: &mut std::task::Context<'_>) -> std::task::Poll<std::io::Result<()>> {
+        std::pin::Pin::new(&mut self.s).poll_flush(cx)
+    }
+    fn poll_shutdown(mut self: std::pin::Pin<&mut Self>, cx: &mut std::task::Context<'_>) -> std::task::Poll<std::io::Result<()>> {
+        std::pin::Pin::new(&mut self.s).poll_shutdown(cx)
+    }
 }
 
 enum ConnCmd {
@@ -27,18 +63,21 @@ impl GrpcServer {
         listener.set_nonblocking(true).unwrap();
         let addr = listener.local_addr().unwrap();
         let (stop, stop_rx) = tokio::sync::watch::channel(false);
+        let abort = Arc::new(std::sync::atomic::AtomicBool::new(false));
+        let abort2 = abort.clone();
         let thread = std::thread::Builder::new()
             .name("collector-grpc".into())
             .spawn(move || {
                 let rt = tokio::runtime::Builder::new_current_thread().enable_all().build().unwrap();
-                rt.block_on(accept_loop(inner, listener, stop_rx));
+                rt.block_on(accept_loop(inner, listener, stop_rx, abort2));
                 // dropping the runtime drops every connection task and with it every socket
             })
             .map_err(|e| format!("collector: spawn grpc thread: {e}"))?;
-        Ok(GrpcServer { addr, stop, thread: Some(thread) })
+        Ok(GrpcServer { addr, abort, stop, thread: Some(thread) })
     }
 
     pub fn stop(mut self) {
+        self.abort.store(true, std::sync::atomic::Ordering::SeqCst);
         let _ = self.stop.send(true);
         if let Some(t) = self.thread.take() {
             let _ = t.join();
@@ -46,7 +85,7 @@ impl GrpcServer {
     }
 }
 
-async fn accept_loop(inner: Arc<Inner>, listener: std::net::TcpListener, mut stop: tokio::sync::watch::Receiver<bool>) {
+async fn accept_loop(inner: Arc<Inner>, listener: std::net::TcpListener, mut stop: tokio::sync::watch::Receiver<bool>, abort: Arc<std::sync::atomic::AtomicBool>) {
     let listener = tokio::net::TcpListener::from_std(listener).unwrap();
     loop {
         tokio::select! {
@@ -55,13 +94,13 @@ async fn accept_loop(inner: Arc<Inner>, listener: std::net::TcpListener, mut sto
                 let Ok((sock, _)) = acc else { continue };
                 let _ = sock.set_nodelay(true);
                 let conn = inner.next_conn();
-                tokio::spawn(serve_conn(inner.clone(), sock, conn));
+                tokio::spawn(serve_conn(inner.clone(), Io { s: sock, abort: abort.clone() }, conn));
             }
         }
     }
 }
 
-async fn serve_conn(inner: Arc<Inner>, sock: tokio::net::TcpStream, conn_id: u64) {
+async fn serve_conn(inner: Arc<Inner>, sock: Io, conn_id: u64) {
     let Ok(mut conn) = h2::server::Builder::new().handshake::<_, Bytes>(sock).await else {
         return;
     };
